@@ -305,6 +305,33 @@ impl SyncHandle {
         }
     }
 
+    /// Verification hook: create the actor but return its unchanged run loop as a future instead
+    /// of running it on a new thread. The future must be polled inside a tokio `LocalSet`.
+    #[cfg(feature = "verif-hooks")]
+    pub fn verif_new_local(
+        store: Store,
+        content_status_callback: Option<ContentStatusCallback>,
+    ) -> (SyncHandle, impl std::future::Future<Output = ()>) {
+        let metrics = Arc::new(Metrics::default());
+        let (action_tx, action_rx) = async_channel::bounded(ACTION_CAP);
+        let actor = Actor {
+            store,
+            states: Default::default(),
+            action_rx,
+            content_status_callback,
+            tasks: Default::default(),
+            metrics: metrics.clone(),
+        };
+        // an already finished thread, so that the unchanged `Drop` can join it
+        let join_handle = std::thread::spawn(|| {});
+        let handle = SyncHandle {
+            tx: action_tx,
+            join_handle: Arc::new(Some(join_handle)),
+            metrics,
+        };
+        (handle, actor.run_async())
+    }
+
     /// Returns the metrics collected in this sync actor.
     pub fn metrics(&self) -> &Arc<Metrics> {
         &self.metrics
